@@ -352,14 +352,26 @@ def run(ctx):
             located_os = [r for r in parse if r["message"].startswith("Failed to open file") and r["primary"] and names_existing_file(r)]
             # one error at every include statement (of a file that was read and parsed) that refers to the unreadable file: which of
             # them is displayed is then a matter of the file filter alone, not of the order in which the files were met (audit C17 f1)
-            want_sites = set()
-            for g in seen:
-                if not ab["ok"][g]:
-                    continue
-                for idx, row in enumerate(ab["table"].get(g, [])):
-                    t = spec_resolve(ab, row)
-                    if t is not None and not ab["readable"][t] and t not in ab["inputs"]:
-                        want_sites.add((g, idx, t))
+            # the include statements through which a file is reached from the named files: those that refer to it, those that refer to the
+            # files they occur in unless these are named, and so on (audit C05 round 2: a broken file two includes deep was invisible)
+            resolved = {(g, idx): spec_resolve(ab, row) for g in seen if ab["ok"][g] for idx, row in enumerate(ab["table"].get(g, []))}
+
+            def chain_sites(bad):
+                out = set()
+                for t in bad:
+                    reach, todo = {t}, [t]
+                    while todo:
+                        v = todo.pop()
+                        if v in ab["inputs"]:
+                            continue
+                        for (g, idx), w in resolved.items():
+                            if w == v:
+                                out.add((g, idx, t))
+                                if g not in reach:
+                                    reach.add(g)
+                                    todo.append(g)
+                return out
+            want_sites = chain_sites({t for t in resolved.values() if t is not None and not ab["readable"][t] and t not in ab["inputs"]})
             got_sites = set()
             for r in located_os:
                 l = r["primary"][0]
@@ -373,14 +385,8 @@ def run(ctx):
             if want_sites != got_sites:
                 problems.append("located file errors at %s, include statements that refer to an unreadable file %s" % (sorted(got_sites), sorted(want_sites)))
             # the same for an included file that is read but cannot be parsed (audit C05 f1): one error at every include statement
-            want_psites, got_psites = set(), set()
-            for g in seen:
-                if not ab["ok"][g]:
-                    continue
-                for idx, row in enumerate(ab["table"].get(g, [])):
-                    t = spec_resolve(ab, row)
-                    if t is not None and ab["readable"][t] and not ab["ok"][t] and t not in ab["inputs"]:
-                        want_psites.add((g, idx, t))
+            got_psites = set()
+            want_psites = chain_sites({t for t in resolved.values() if t is not None and ab["readable"][t] and not ab["ok"][t] and t not in ab["inputs"]})
             for r in parse:
                 if r["message"].startswith("Failed to parse the included file") and r["primary"]:
                     l = r["primary"][0]
@@ -424,8 +430,8 @@ def run(ctx):
             real_ids = [ab["ids"][c] for c in real_files]
             model_users = sorted(f for f in m["users"] if ab["readable"][f])
             real_users = sorted(ab["ids"][c] for c, u in flags.items() if u)
-            real_bad = sorted((g, i) for g, i, _ in got_sites | got_psites)
-            if model_reads != real_ids or model_users != real_users or m["errors"] != got_errs or sorted(m["bad"]) != real_bad:
+            real_bad = sorted({(g, i) for g, i, _ in got_sites | got_psites})
+            if model_reads != real_ids or model_users != real_users or m["errors"] != got_errs or sorted(set(map(tuple, m["bad"]))) != real_bad:
                 l2 += 1
                 ctx.violation("includes-correspondence", dict(rp, stage="L2", model={"reads": model_reads, "users": model_users, "errors": m["errors"], "bad": sorted(m["bad"])},
                                                               implementation={"reads": real_ids, "users": real_users, "errors": got_errs, "bad": real_bad},
